@@ -151,6 +151,12 @@ def _handle_ConnectionUp (event):
                           mask = of.OFPPC_NO_FLOOD)
       con.send(pm)
     _invalidate_ports(con.dpid)
+  else:
+    # A switch keeps its port configuration when its connection to us goes
+    # away, so ports we set NO_FLOOD during an earlier session may still be
+    # that way while we no longer know of any link on them.  Don't wait for
+    # the next link event to fix them up.
+    _update_tree()
 
   if _hold_down:
     t = Timer(core.openflow_discovery.send_cycle_time + 1, _update_tree,
